@@ -323,6 +323,9 @@ class HdlcFrameReader(MeterReaderBase[HdlcFrame]):
         """
         frames_received: list[HdlcFrame] = []
 
+        # Octets consumed by earlier calls are never read again. Drop them, or the buffer grows without bound
+        # while no frame completes (e.g. inter-frame time fill of flag sequences only).
+        self._buffer.trim_buffer_to_current_position()
         self._buffer.extend(data_chunk)
 
         if self._frame is None:  # in hunt mode
@@ -376,7 +379,8 @@ class HdlcFrameReader(MeterReaderBase[HdlcFrame]):
 
         elif len(self._frame) == 0:
             # Found new flag sequence. Two is normal ( end + start), one is allowed, and many possible if time fill.
-            pass
+            # Raw octets that produced no frame octet (a lone control escape) are not kept.
+            self._raw_frame_data.clear()
 
         elif self._frame.header.header_check_sequence is None:
             # Frames which are too short are silently discarded, and not counted as a FCS error.
